@@ -72,3 +72,17 @@ class SampledMutator(FirstOrderMutator):
             if index % 2 == 0:
                 yield item
 '''
+
+
+@variant("C28", "positions-of-a-filtered-list", B, "C28.index-space", "children enumerated over a filtered copy, spliced by that position into the full list")
+def _v31(repo, mod):
+    fn = repo.func(B, "MutationOperator._generic_visit_list")
+    lp = find_stmt(fn, lambda s: isinstance(s, ast.For) and "enumerate" in norm(s.iter))
+    return replace_node(mod, lp.iter, "enumerate([v for v in old_value if isinstance(v, ast.AST)])")
+
+
+@variant("C28", "twin-positions-of-a-tuple-copy", B, None, "enumerating tuple(old_value) stays silent")
+def _v32(repo, mod):
+    fn = repo.func(B, "MutationOperator._generic_visit_list")
+    lp = find_stmt(fn, lambda s: isinstance(s, ast.For) and "enumerate" in norm(s.iter))
+    return replace_node(mod, lp.iter, "enumerate(tuple(old_value))")
